@@ -106,6 +106,24 @@ def _leaves(v, depth=0):
     return 1
 
 
+def alloc_budget(n):
+    # a decoded value costs at most a few dozen bytes per input byte (an
+    # INT16 becomes a 28 byte int object plus an 8 byte list slot); the
+    # constant covers the interpreter's own frames and the exception
+    return 4000000 + 200 * n
+
+
+def _check_alloc(res, raw, tag, rep, what):
+    peak = meter.last_peak()
+    res.setmax('max_alloc_bytes', peak)
+    if peak > alloc_budget(len(raw)):
+        res.violation('%s/allocation/%s' % (PROP, tag),
+                      '%s had %d bytes allocated at one time while decoding '
+                      'a %d byte input (%s): %s'
+                      % (what, peak, len(raw), tag, raw[:80].hex()),
+                      rep, size=len(raw))
+
+
 def check_parse(res, raw, tag, rep):
     """parseMessage(raw) must finish within budget with a message or an
     Exception; returns the status."""
@@ -119,6 +137,7 @@ def check_parse(res, raw, tag, rep):
         except core.ExecutionTimeout:
             st, v, n = 'budget', None, -1
     res.setmax('max_lines', n)
+    _check_alloc(res, raw, tag, rep, 'parseMessage')
     if st == 'budget':
         res.violation('%s/unbounded/%s' % (PROP, tag),
                       'parseMessage did not finish within %d line events on a '
@@ -158,6 +177,7 @@ def check_protocol(res, raw, tag, rep):
                                      budget(len(raw)))
         except core.ExecutionTimeout:
             st, v, n = 'budget', None, -1
+    _check_alloc(res, raw, tag, rep, 'dataReceived')
     if st == 'budget':
         res.violation('%s/unbounded-protocol/%s' % (PROP, tag),
                       'dataReceived did not finish within %d line events on '
@@ -198,6 +218,7 @@ def _mutations(raw, thorough):
 
 
 def _task_mut(task):
+    meter.trace_allocations()
     idx, thorough = task
     res = core.Result()
     raw = base_messages()[idx]
@@ -240,6 +261,7 @@ def _bodies():
 
 
 def _task_sigs(task):
+    meter.trace_allocations()
     first, maxlen = task
     res = core.Result()
     n = 0
@@ -279,6 +301,7 @@ def _sigclass(sig):
 
 
 def _task_families(thorough):
+    meter.trace_allocations()
     res = core.Result()
     fam = []
     # zero-size elements at every nesting shape
@@ -487,7 +510,10 @@ def _task_scaling(task):
 def run(ctx):
     L = 4 if ctx.quick else 6
     ctx.rule = (
-        'work meter = interpreter line events, budget 600000 + 100*len. '
+        'work meter = interpreter line events, budget 600000 + 100*len; '
+        'allocation meter = tracemalloc peak during the call, budget 4 MB + '
+        '200*len; scaling: 25 families measured at m and 4m (m = 50, 200%s), '
+        'work(4m) <= 5*work(m)+5000. '
         'For each of %d base messages (all four types, both byte orders, all '
         'container kinds): every truncation; every position x %s (all 256 '
         'values in the first 80 bytes when thorough); every aligned 32-bit '
@@ -499,11 +525,13 @@ def run(ctx):
         'containers, lying lengths on 20 kB%s inputs. The same bytes go '
         'through BasicDBusProtocol.dataReceived. state = distinct input; '
         'transition = one parse/deliver call'
-        % (len(base_messages()), '{00,01,7f,80,ff,low-bit flip,a(){}vysg}',
+        % ('' if ctx.quick else ', 800, 2000',
+           len(base_messages()), '{00,01,7f,80,ff,low-bit flip,a(){}vysg}',
            L, SIG_ALPHABET, len(_bodies()),
            '' if ctx.quick else ' and 200 kB'))
     ctx.bounds = {'hostile_signature_max_len': L,
-                  'budget': '600000 + 100*len line events'}
+                  'budget': '600000 + 100*len line events',
+                  'allocation_budget': '4000000 + 200*len bytes'}
     ctx.assumptions = [
         'an Exception subclass (other than MemoryError) escaping the parser '
         'costs the peer only its connection (Twisted drops the connection)',
